@@ -62,7 +62,8 @@ def build(chk, configs=('rel', 'dbg', 'bmi')):
 def run_cases(chk, driver, exes, lines):
     model = {}
     if driver:
-        rc, model, err = pair.run_model(driver, lines)
+        # the model has one coordinate type (unbounded): the 32-bit-coordinate Morton cases are ordinary Morton cases for it
+        rc, model, err = pair.run_model(driver, [l.replace(' midx32 ', ' midx ', 1) for l in lines])
         if rc:
             chk.obligation_broken('extracted model crashed', err[-2000:])
     impl = {cfg: pair.run_impl_isolated(exe, lines) for cfg, exe in exes.items()}
